@@ -163,7 +163,25 @@ fn gds_record(case: &Value) -> Value {
         rand_lib(&mut rng, geti(case, "structs") as usize, geti(case, "elems") as usize)
     };
     let proj = lib_json(&lib);
-    match guarded(|| write_bytes(&lib)) {
+    // "file": {"path", "pre"}: the bytes are produced through GdsLibrary::save into a file that did not exist (pre < 0) or
+    // already held `pre` bytes of something else; what is judged is the content of the file afterwards
+    let via_file = case.get("file").cloned();
+    let produce = || -> Result<Vec<u8>, String> {
+        match &via_file {
+            None => write_bytes(&lib),
+            Some(f) => {
+                let path = gets(f, "path").to_string();
+                let pre = geti(f, "pre");
+                let _ = std::fs::remove_file(&path);
+                if pre >= 0 { std::fs::write(&path, vec![0x5Au8; pre as usize]).map_err(err_str)?; }
+                lib.save(&path).map_err(err_str)?;
+                let b = std::fs::read(&path).map_err(err_str)?;
+                let _ = std::fs::remove_file(&path);
+                Ok(b)
+            }
+        }
+    };
+    match guarded(produce) {
         Err(p) => json!({"id": id(case), "outcome":"panic", "msg": p, "lib": proj}),
         Ok(Err(e)) => json!({"id": id(case), "outcome":"werr", "msg": e, "lib": proj}),
         Ok(Ok(w)) => {
@@ -175,7 +193,8 @@ fn gds_record(case: &Value) -> Value {
                 Ok(Ok(l2)) => { let d = json_diff(&proj, &lib_json(&l2), "");
                     json!({"outcome":"ok","eq": l2 == lib, "proj_eq": d.is_none(), "diff": d.map(|d| json!([d.0, d.1, d.2]))}) }
             };
-            json!({"id": id(case), "outcome":"ok", "lib": proj, "records": recs, "total": w.len(), "consumed": consumed, "reread": rr})
+            let file_eq_mem = if via_file.is_some() { write_bytes(&lib).ok().map(|m| m == w) } else { None };
+            json!({"id": id(case), "outcome":"ok", "lib": proj, "records": recs, "total": w.len(), "consumed": consumed, "reread": rr, "file_eq_mem": file_eq_mem})
         }
     }
 }
